@@ -281,7 +281,104 @@ def check_c18(tier, seed):
     shutil.rmtree(wd, ignore_errors=True)
     return 1 if bad else 0
 
+def check_c20(tier, seed):
+    """C20: BlockWatcher.tla exhaustive; schedules from its state graph and random ones on the real BlockWatcher;
+    BlockTrace.tla (the specification driven by the trace) validates every step and evaluates C20 in every state."""
+    import random
+    t0 = time.time()
+    pid = "C20"
+    wd = f"{VERIF}/work/C20_{tier}"
+    shutil.rmtree(wd, ignore_errors=True); os.makedirs(wd)
+    run.cargo_build()
+    thorough = tier == "thorough"
+    g, d, _ = tlc_plain("BlockWatcher.tla", "BlockWatcher.cfg", wd)
+    # schedules from the specification
+    cfg = open(VERIF + "/spec/BlockSched.cfg").read().replace("EmitRate = 20", f"EmitRate = {2 if thorough else 25}")
+    open(wd + "/BlockSched.cfg", "w").write(cfg)
+    p = subprocess.run(["timeout", "900", "tlc", "-workers", "4", "-seed", str(seed), "-metadir", wd + "/ms", "-cleanup", "-noGenerateSpecTE",
+                        "-config", wd + "/BlockSched.cfg", "BlockSched.tla"], cwd=VERIF + "/spec", capture_output=True, text=True)
+    jobs = []
+    for line in p.stdout.splitlines():
+        mm = life.SCHED.match(line.strip())
+        if mm:
+            evs = json.loads(mm.group(1).replace('\\"', '"'))
+            jobs.append({"run": len(jobs) + 1, "h0": evs[0]["h"], "sched": evs[1:]})
+    if not jobs:
+        raise run.ToolError("no schedules from BlockSched:\n" + p.stdout[-2000:])
+    nsched = len(jobs)
+    rng = random.Random(seed)
+    for k in range(6000 if thorough else 800):
+        hs = sorted(rng.sample(range(1, 40), 5))
+        jobs.append({"run": len(jobs) + 1, "h0": rng.choice(hs), "seed": rng.getrandbits(40), "steps": rng.randint(10, 60), "heights": hs})
+    chunks = run.split(jobs, 12)
+    outs = []
+    for k, ch in enumerate(chunks):
+        i = f"{wd}/j{k}.ndjson"; o = f"{wd}/t{k}.ndjson"
+        with open(i, "w") as f:
+            for j in ch:
+                f.write(json.dumps(j) + "\n")
+        pr = subprocess.run([run.VFH, "blk", i, o], capture_output=True, text=True)
+        if pr.returncode != 0:
+            raise run.ToolError("vfh blk failed: " + pr.stderr[-1500:])
+        outs.append(o)
+    from concurrent.futures import ThreadPoolExecutor
+    # implementation verdict: black-box judge
+    with ThreadPoolExecutor(max_workers=12) as ex:
+        res = list(ex.map(lambda ko: (ko[1],) + run.tlc_trace("BlockObs.tla", "BlockObs.cfg", ko[1], f"{wd}/bo{ko[0]}"), enumerate(outs)))
+    bad = []; nlines = 0; drift = []
+    for o, rc, out in res:
+        lines = open(o).read().splitlines()
+        nlines += len(lines)
+        if "No error has been found" not in out:
+            raise run.ToolError("BlockObs failed:\n" + out[-2000:])
+        for x in out.splitlines():
+            if "BLKVIOL" in x:
+                runno = int(x.split(",")[1])
+                at = next(k for k, ln in enumerate(lines) if '"ev":"reset"' in ln and f'"run":{runno}' in ln) + 2
+                bad.append((o, at, x.strip()))
+    # conformance verdict: the trace must be a behaviour of BlockWatcher.tla
+    with ThreadPoolExecutor(max_workers=12) as ex:
+        res = list(ex.map(lambda ko: (ko[1],) + run.tlc_trace("BlockTrace.tla", "BlockTrace.cfg", ko[1], f"{wd}/bt{ko[0]}"), enumerate(outs)))
+    for o, rc, out in res:
+        if "BLKSTUCK" in out:
+            mm = [x for x in out.splitlines() if "BLKSTUCK" in x][0]
+            drift.append((o, int(mm.split(",")[1])))
+        elif "is violated" in out:
+            drift.append((o, 0))
+        elif "No error has been found" not in out:
+            raise run.ToolError("BlockTrace failed:\n" + out[-2000:])
+    def run_of(o, at):
+        lines = open(o).read().splitlines()
+        k = at - 1
+        while k > 0 and '"ev":"reset"' not in lines[min(k, len(lines) - 1)]:
+            k -= 1
+        end = k + 1
+        while end < len(lines) and '"ev":"end"' not in lines[end]:
+            end += 1
+        return [json.loads(x) for x in lines[k:end + 1]]
+    os.makedirs(REPLAYS, exist_ok=True)
+    for n, (o, at, what) in enumerate(bad[:3]):
+        pth = f"{REPLAYS}/C20_{n}.json"
+        json.dump({"property": pid, "kind": "blk", "what": what, "trace": run_of(o, at)}, open(pth, "w"))
+        print(f"VIOLATION property=C20 replay={pth}")
+    for (o, at) in drift[:3]:
+        print(f"DRIFT: the real BlockWatcher took a step BlockWatcher.tla cannot explain (line {at} of {o})")
+    samples = [run_of(outs[0], 1)[:14], run_of(outs[-1], 1)[:14]]
+    cov = {"states": d, "transitions": g, "traces_validated_against_impl": len(jobs), "samples": samples,
+           "tlc_schedules_replayed": nsched, "random_schedules": len(jobs) - nsched, "trace_lines_validated": nlines,
+           "conformance": "drift" if drift else "accepted", "exhaustive": False,
+           "rule": "BlockWatcher.tla: all interleavings of poll replies, failed polls, stale/repeated/ahead notifications and node "
+                   "growth within the constants (exhaustive); real BlockWatcher: schedules sampled from every explored edge plus "
+                   "seeded random ones; every recorded step must be the specification's action with the same height and the same "
+                   "getinfo calls, and C20's invariants hold in every state of the walk"}
+    write_evidence(pid, tier, seed, "model_checking", cov, time.time() - t0, len(bad),
+                   ["one tick = 20 s of the paused tokio clock (POLL_INTERVAL = 3 ticks)", "getinfo answered by NodeSim"])
+    shutil.rmtree(wd, ignore_errors=True)
+    return 1 if bad else 0
+
 def check(pid, tier, seed):
+    if pid == "C20":
+        return check_c20(tier, seed)
     if pid == "C18":
         return check_c18(tier, seed)
     if pid == "C12":
